@@ -521,3 +521,36 @@ mod input_queue_tests {
         }
     }
 }
+
+#[cfg(feature = "verif-hooks")]
+impl<T: Config> InputQueue<T> {
+    pub(crate) fn verif_digest(&self, out: &mut Vec<u8>) {
+        use crate::verif_hooks::Digest;
+        let Self {
+            head,
+            tail,
+            length,
+            first_frame,
+            last_added_frame,
+            last_user_frame,
+            first_incorrect_frame,
+            last_requested_frame,
+            frame_delay,
+            inputs,
+            prediction,
+        } = self;
+        head.digest(out);
+        tail.digest(out);
+        length.digest(out);
+        first_frame.digest(out);
+        last_added_frame.digest(out);
+        last_user_frame.digest(out);
+        first_incorrect_frame.digest(out);
+        last_requested_frame.digest(out);
+        frame_delay.digest(out);
+        for input in inputs {
+            input.verif_digest(out);
+        }
+        prediction.verif_digest(out);
+    }
+}
